@@ -136,7 +136,7 @@ CLAIMED = {
                      'validation + schedule replay',
         'text': 'TLC checks MutexDiscipline, FirstRequestsCompileOnce, CompleteObject, FreshSinceCallStart, OnlyDocumentedExceptions and '
                 '(weak fairness, no state constraint) NoThreadBlocked on LookupConc for 2 threads (same/different URI, modify/break/tick '
-                'steps) and 3 threads, and RenderIsolation/BoundUnderConcurrency/MemoStable/PrivateStacks on RenderShared; every '
+                'steps) and 3 threads, and RenderIsolation/BoundUnderConcurrency/MemoStable/MemoCompleteWhenVisible/PrivateStacks on RenderShared; every '
                 'interleaving of 2 real threads at the interposed lock/collection/file/clock points (sleep-set DFS; 3 threads preemption '
                 'bound 2) is validated by Trace_LookupConc with the invariants evaluated in every state; TLC -simulate behaviours and the '
                 'SpecDev counterexample are replayed as schedules on real threads; line-level schedules (sys.settrace; preemption bounds '
